@@ -1012,10 +1012,11 @@ def _spaces(tier):
     if thorough:
         sp.append(SeqSpace("hist: every operation sequence of length <=3 over %d operations on one Reaction, 4 reactions (orders 1/1, 2/1, 0/2, 3/2), all observers after EVERY operation"
                            % len(HIST_OPS), "hist", [{"rx": i, "mode": "every"} for i in rx_all], HIST_OPS, 3))
-        sp.append(SeqSpace("hist4: every sequence of length <=4 over the %d state-relevant operations, 4 reactions, all observers after the last operation (reads inside the sequence are checked as operations)"
-                           % len(HIST_OPS_CORE), "hist", [{"rx": i, "mode": "last"} for i in rx_all], HIST_OPS_CORE, 4))
-        sp.append(SeqSpace("nethist: one Reaction shared by two RDNetworks: every sequence of length <=3 over %d operations (6 operations x 3 handles + network copy), 2 reactions"
-                           % len(NETHIST_OPS), "nethist", [{"rx": 0}, {"rx": 1}], NETHIST_OPS, 3))
+        sp.append(SeqSpace("hist4: every sequence of length <=4 over the %d state-relevant operations, 2 reactions (orders 2/1, 3/2), all observers after the last operation (reads inside the sequence are checked as operations)"
+                           % len(HIST_OPS_CORE), "hist", [{"rx": 1, "mode": "last"}, {"rx": 3, "mode": "last"}], HIST_OPS_CORE, 4))
+        sp.append(SeqSpace("nethist: one Reaction shared by two RDNetworks: every sequence of length <=3 over %d operations (6 operations x 3 handles + network copy), reaction 'A + B -> C' (orders 2/1); length <=2 for 'A -> B'"
+                           % len(NETHIST_OPS), "nethist", [{"rx": 1}], NETHIST_OPS, 3))
+        sp.append(SeqSpace("nethist: the same, 'A -> B', length <=2", "nethist", [{"rx": 0}], NETHIST_OPS, 2))
     else:
         sp.append(SeqSpace("hist/quick: every operation sequence of length <=2 over %d operations on one Reaction, 4 reactions (orders 1/1, 2/1, 0/2, 3/2), all observers after EVERY operation"
                            % len(HIST_OPS), "hist", [{"rx": i, "mode": "every"} for i in rx_all], HIST_OPS, 2))
